@@ -158,6 +158,73 @@ func c10Near(c *fw.Ctx, idx int) {
 	}
 }
 
+// (ii') wide-span triples: two points of huge magnitude that are exactly
+// collinear with the origin (one is an exact power-of-two or small-integer
+// multiple of the other) and a third point tens to hundreds of decades smaller
+// (or zero), so that the sign is decided by ordinates 2^100..2^660 below the
+// leading ones: any evaluation that carries fewer bits than the full span of the
+// exponents sees an exactly collinear triple
+func c10Wide(c *fw.Ctx, idx int) {
+	r := c.R
+	var e, p, o [2]float64
+	hi := r.Range(5, 99)
+	switch r.Intn(3) {
+	case 0: // random mantissas, p = 2^j * e
+		e = [2]float64{c10Mag(r, hi, hi), c10Mag(r, hi-r.Intn(3), hi)}
+		j := r.Range(-3, 3)
+		if j == 0 {
+			j = 1
+		}
+		p = [2]float64{math.Ldexp(e[0], j), math.Ldexp(e[1], j)}
+	case 1: // small integer direction scaled by a power of two, p = q * e with q a small integer
+		sc := math.Ldexp(1, int(float64(hi)*3.3219))
+		m, n := float64(r.Range(-9, 9)), float64(r.Range(-9, 9))
+		if m == 0 && n == 0 {
+			m = 1
+		}
+		q := float64([]int{2, 3, -1, -2, 5, 7}[r.Intn(6)])
+		e = [2]float64{m * sc, n * sc}
+		p = [2]float64{m * q * sc, n * q * sc}
+	default: // axis-parallel pair
+		v := c10Mag(r, hi, hi)
+		w := c10Mag(r, hi, hi)
+		if r.Bool() {
+			e, p = [2]float64{v, 0}, [2]float64{w, 0}
+		} else {
+			e, p = [2]float64{0, v}, [2]float64{0, w}
+		}
+	}
+	lo := r.Range(-100, hi-1)
+	if lo > 60 {
+		lo = r.Range(-100, 0)
+	}
+	switch r.Intn(5) {
+	case 0:
+		o = [2]float64{c10Mag(r, lo, lo), 0}
+	case 1:
+		o = [2]float64{0, c10Mag(r, lo, lo)}
+	default:
+		o = [2]float64{c10Mag(r, lo, lo), c10Mag(r, lo-r.Intn(4), lo)}
+	}
+	for _, v := range []float64{o[0], o[1], e[0], e[1], p[0], p[1]} {
+		if v != 0 && (math.Abs(v) < 1e-100 || math.Abs(v) > 1e100) || math.IsInf(v, 0) || math.IsNaN(v) {
+			c.Count("skipped_out_of_band")
+			return
+		}
+	}
+	c.Count("wide_span_triples")
+	if hi-lo > 77 {
+		c.Count("wide_span_over_256_bits")
+	}
+	if hi-lo > 150 {
+		c.Count("wide_span_over_500_bits")
+	}
+	c10Check(c, [3][2]float64{o, e, p}, "wide-span")
+	if c.WantSample() {
+		c.Sample(c.Input())
+	}
+}
+
 func egcd(a, b int64) (g, x, y int64) {
 	if b == 0 {
 		return a, 1, 0
@@ -246,6 +313,7 @@ func init() {
 		Classes: []fw.Class{
 			{Name: "grid7", Quick: 117649, Thorough: 117649, Run: c10Grid, Exhaustive: "every ordered triple of points of a 7x7 integer grid, all 6 argument orders"},
 			{Name: "near-collinear", Quick: 6000, Thorough: 400000, Run: c10Near},
+			{Name: "wide-span", Quick: 40000, Thorough: 2000000, Run: c10Wide},
 			{Name: "bigint", Quick: 40000, Thorough: 2000000, Run: c10Big},
 			{Name: "random", Quick: 20000, Thorough: 500000, Run: c10Random},
 		},
